@@ -95,20 +95,39 @@ sig = 1:Date,Server,?Last-Modified,?Accept-Ranges=[bytes],?Content-Length,?Conte
 """
 
 
-def db_from_text(text, key=None):
-    pp = P()
-    if key is not None and key in _DB:
-        return _DB[key]
+_SHARED = {}
+
+
+def _load_into(db, text):
     fd, path = tempfile.mkstemp(prefix="verif-db-", suffix=".fp", dir="/dev/shm" if os.path.isdir("/dev/shm") else None)
     try:
         with os.fdopen(fd, "wb") as fh:
             fh.write(text if isinstance(text, bytes) else text.encode("utf-8"))
-        db = pp["Database"]()
         db.load(path)
     finally:
         os.unlink(path)
-    if key is not None:
-        _DB[key] = db
+    return db
+
+
+def db_from_text(text, key=None):
+    """Database holding `text`.  Most calls re-load ONE long-lived Database object per worker (so that
+    anything cached per object across loads shows up as a wrong answer); some use a fresh object."""
+    pp = P()
+    if key is not None and key in _DB:
+        return _DB[key]
+    import zlib
+    h = zlib.crc32(text if isinstance(text, bytes) else text.encode("utf-8"))
+    if h % 4 == 0:
+        db = _load_into(pp["Database"](), text)
+    else:
+        if "db" not in _SHARED:
+            _SHARED["db"] = pp["Database"]()
+            _SHARED["last"] = None
+        db = _SHARED["db"]
+        if _SHARED["last"] != text:
+            _SHARED["last"] = None          # a failing load must not leave a stale marker
+            _load_into(db, text)
+            _SHARED["last"] = text
     return db
 
 
@@ -152,7 +171,7 @@ def cat_of(fn):
 def op_fpall(f):
     pp = P()
     raw = bytes.fromhex(f[2])
-    db = db_from_text(SMALL_DB, key="small")
+    db = db_from_text(SMALL_DB)
     opts = pp["Options"](database=db)
     res = {}
     lay = "-"
